@@ -146,18 +146,34 @@ Definition x_window_boundaries : machine A A B :=
    source [S j], subscribed through take(1): its first element (or its
    completion) closes the window and re-arms.  m.disposable = m1 disposes the
    previous closing subscription (the one that just fired).  [ww_closing]: the
-   closing source currently subscribed (informative). *)
+   closing source currently subscribed (informative).
+   A raising closing_mapper() (create_window_on_completed: `except Exception as
+   exception: window.on_error(exception); observer.on_error(exception); return`):
+   the CURRENT window -- at the first call, inside subscribe(), window 0, already
+   handed and the source already subscribed; at a later call the window just
+   handed -- gets the error first, then the outer sequence.  Every earlier
+   window has completed, so no reference of the RefCountDisposable is left and
+   the runner releases the source at the outer's terminal. *)
 Record ww_st := WwSt { ww_cur : nat; ww_next : nat; ww_calls : nat; ww_closing : option nat }.
 
-Definition ww_arm (mapper : nat -> res unit) (s : ww_st) : ww_st * list (cmd A B) * fin :=
+(* After a closing observable fired (on_completed of the closing subscription):
+   `window.on_completed(); window = Subject(); observer.on_next(add_ref(window,
+   r)); if d.is_disposed: return; create_window_on_completed()` -- when the
+   completion of the old window released the last reference (the outer
+   subscription being gone already), the mapper is not called and no closing
+   observable is subscribed: the subscription is a [CSubLive] ([guarded] =
+   true); once released no input reaches the machine any more, so the rest of
+   what it computes then (call counter, a raising call's error) is unobservable.
+   The first call, inside subscribe(), is unguarded. *)
+Definition ww_arm (guarded : bool) (mapper : nat -> res unit) (s : ww_st) : ww_st * list (cmd A B) * fin :=
   match mapper (ww_calls s) with
-  | Raise e => (WwSt (ww_cur s) (ww_next s) (S (ww_calls s)) (ww_closing s), [], Fail e)
+  | Raise e => (WwSt (ww_cur s) (ww_next s) (S (ww_calls s)) (ww_closing s), [CWin (ww_cur s) (Err e)], Fail e)
   | Ok _ => (WwSt (ww_cur s) (ww_next s) (S (ww_calls s)) (Some (S (ww_calls s))),
-             [CSub (S (ww_calls s))], Cont)
+             [if guarded then CSubLive (S (ww_calls s)) else CSub (S (ww_calls s))], Cont)
   end.
 
 Definition x_window_when (mapper : nat -> res unit) : machine A A B :=
-  Machine (let '(s, c, f) := ww_arm mapper (WwSt 0 1 0 None) in (s, [CHand 0%nat 0; CSub 0%nat] ++ c, f))
+  Machine (let '(s, c, f) := ww_arm false mapper (WwSt 0 1 0 None) in (s, [CHand 0%nat 0; CSub 0%nat] ++ c, f))
     (fun s _ i =>
        match i with
        | ISrc O (Next x) => (s, [CWin (ww_cur s) (Next x)], Cont)
@@ -166,7 +182,7 @@ Definition x_window_when (mapper : nat -> res unit) : machine A A B :=
        | ISrc (S _) (Err e) => (s, [CWin (ww_cur s) (Err e)], Fail e)
        | ISrc (S j) _ =>
            (* take(1) / m.disposable = m1: the closing subscription that fired is disposed *)
-           let '(s', c, f) := ww_arm mapper (WwSt (ww_next s) (S (ww_next s)) (ww_calls s) (ww_closing s)) in
+           let '(s', c, f) := ww_arm true mapper (WwSt (ww_next s) (S (ww_next s)) (ww_calls s) (ww_closing s)) in
            (s', [CWin (ww_cur s) Done; CHand (ww_next s) 0; CUnsub (S j)] ++ c, f)
        | _ => (s, [], Cont)
        end).
@@ -273,6 +289,7 @@ Fixpoint buf_cmds (keep_empty : bool) (open : list (nat * list A)) (outer_done :
       | CTimer tg d => let '(o, out, f) := buf_cmds keep_empty open outer_done t in (o, CTimer tg d :: out, f)
       | CCancel tg => let '(o, out, f) := buf_cmds keep_empty open outer_done t in (o, CCancel tg :: out, f)
       | CEffect n => let '(o, out, f) := buf_cmds keep_empty open outer_done t in (o, CEffect n :: out, f)
+      | CSubLive k => let '(o, out, f) := buf_cmds keep_empty open outer_done t in (o, CSubLive k :: out, f)
       end
   end.
 
